@@ -415,8 +415,28 @@ def _ids(recs: List[TaskRec]) -> tuple:
     return tuple(r.id if r.id is not None else f"?{r.n}" for r in recs)
 
 
+def _unblock(c: Controller, recs: List[TaskRec]) -> None:
+    """None of the awaited work items is running (all queued behind a full pool) although work items the scheduler does NOT
+    await still run: only one of those can make progress. Never happens while the scheduler awaits everything it has in
+    flight; when it does, the stray item to finish is a choice."""
+    while not any(r.entered.is_set() and not r.finished.is_set() for r in recs):
+        strays = sorted((r for r in c.recs if r.entered.is_set() and not r.finished.is_set() and r not in recs), key=lambda r: (str(r.id), r.n))
+        if not strays:
+            return
+        r = strays[c.choose("done_stray", len(strays))]
+        c.ev("stray", r.id)
+        c.complete([r])
+
+
 def _pick_completion(c: Controller, kind: str, return_when: str, recs: List[TaskRec]) -> List[TaskRec]:
     recs = sorted(recs, key=lambda r: (str(r.id), r.n))
+    for r in recs:
+        # the work item is over (e.g. the library's wrapper raised before reaching the node function) but the pool thread
+        # has not published the future yet: that is a matter of microseconds, not a scheduling choice
+        if r.finished.is_set() and r.future is not None and not r.future.done():
+            lim = _time.monotonic() + 5
+            while not r.future.done() and _time.monotonic() < lim:
+                _time.sleep(0.00005)
     already = [r for r in recs if r.finished.is_set() and (r.future is None or r.future.done())]
     c.ev("wait", kind, return_when, _ids(recs), _ids(already))
     if already and return_when == _cf.FIRST_COMPLETED:
@@ -425,6 +445,7 @@ def _pick_completion(c: Controller, kind: str, return_when: str, recs: List[Task
         return already
     if return_when == _cf.FIRST_COMPLETED:
         # only a node that is actually running can finish: a submission still queued behind a full pool cannot
+        _unblock(c, recs)
         live = [r for r in recs if r.entered.is_set()] or recs
         opts = subsets(len(live))
         chosen = [live[i] for i in opts[c.choose("done_" + kind, len(opts))]]
@@ -435,6 +456,7 @@ def _pick_completion(c: Controller, kind: str, return_when: str, recs: List[Task
         chosen = recs
         todo = list(recs)
         while todo:
+            _unblock(c, todo)
             live = [r for r in todo if r.entered.is_set()] or todo
             r = live[c.choose("done_all_" + kind, len(live))]
             todo.remove(r)
@@ -491,6 +513,18 @@ async def hooked_asyncio_wait(fs, *, timeout=None, return_when=_real_asyncio.ALL
         raise HarnessError("async-thread task never reached the pool")
     done_early = [f for f in fs if f not in c.by_atask]
     recs = [c.by_atask[f] for f in fs if f in c.by_atask]
+    ghosts = [f for f in fs if f in c.by_atask and f.done() and not c.by_atask[f].finished.is_set()]
+    if ghosts:
+        # the task the scheduler awaits is over although the node function it stands for is still running (the library
+        # reports completion at hand-off): no choice to make, the real primitive returns at once; recorded for the monitors
+        grecs = sorted((c.by_atask[f] for f in ghosts), key=lambda r: (str(r.id), r.n))
+        c.ev("wait", "a", return_when, _ids(sorted(recs, key=lambda r: (str(r.id), r.n))), _ids(grecs))
+        c.ev("ghost", _ids(grecs))
+        if return_when != _real_asyncio.FIRST_COMPLETED:
+            c.complete([r for r in recs if not r.finished.is_set() and not r.atask.done()])
+        done, not_done = await _real_asyncio.wait(fs, timeout=timeout, return_when=return_when)
+        c.ev("done", "a", _ids(sorted((c.by_atask[f] for f in done if f in c.by_atask), key=lambda r: (str(r.id), r.n))))
+        return _order_batch(c, "a", done, c.by_atask.get), not_done
     if c.driver is not None:
         chosen = await c.driver.park(c, recs, return_when, done_early)
     elif done_early:
